@@ -150,7 +150,17 @@ InsideIdField(buf, sh) ==
   ELSE LET htyp == buf[o + 1]  std == StdLen(htyp) IN
        \/ Bit(htyp, 2) = 1 /\ avail \in 4..7
        \/ Bit(htyp, 0) = 1 /\ avail \in (std + 2)..(std + 9) /\ HdrsLen(htyp) <= U16(buf, o + 3, TRUE)
-IdCutOk(e) == (InsideIdField(e.buf, e.sh) /\ ParseVerdict(e.buf, e.sh).v = "inc") => e.res.v = "inc"
+\* the number of bytes missing to complete the id field the buffer ends in (only meaningful when InsideIdField)
+IdFieldShortfall(buf, sh) ==
+  LET k == IF sh THEN FindPattern(buf) ELSE 1
+      o == IF sh THEN k + 15 ELSE 0
+      avail == Len(buf) - o IN
+  IF sh /\ Len(buf) - (k - 1) \in 12..15 THEN 16 - (Len(buf) - (k - 1))
+  ELSE LET htyp == buf[o + 1]  std == StdLen(htyp) IN
+       IF Bit(htyp, 2) = 1 /\ avail \in 4..7 THEN 8 - avail
+       ELSE IF avail <= std + 5 THEN std + 6 - avail ELSE std + 10 - avail
+IdCutOk(e) == (InsideIdField(e.buf, e.sh) /\ ParseVerdict(e.buf, e.sh).v = "inc")
+                 => (e.res.v = "inc" /\ HintOk(e.res, IdFieldShortfall(e.buf, e.sh)))      \* any size hint no larger than the shortfall
 Matches(e) == CASE e.op = "parse"     -> ParseOk(e)
                 [] e.op = "enc"       -> e.bytes = EncMessage(e.m)
                 [] e.op = "round"     -> RoundOk(e)
